@@ -94,7 +94,7 @@ func randomShapes(rng *vh.Rng, n int) []shape {
 				case x < 6:
 					ss = append(ss, G)
 				case x < 7 && f+1 < nf:
-					ss = append(ss, L.Call(f+1, []L.Arg{L.Same(), L.Dec(), L.Const(rng.Intn(3))}[rng.Intn(3)]))
+					ss = append(ss, L.Call(f+1, []L.Arg{L.Same(), L.Const(rng.Intn(3))}[rng.Intn(2)])) // n-1 only under `if n > 0`: the model's counters are naturals
 				case x < 8:
 					ss = append(ss, L.IfPos(L.Call(f, L.Dec())))
 				case x < 9:
@@ -229,7 +229,7 @@ func main() {
 	rng := vh.NewRng(a.Seed)
 	nRandom := 40
 	if a.Thorough() {
-		nRandom = 1200
+		nRandom = 400
 	}
 	if a.N > 0 {
 		nRandom = a.N
